@@ -357,6 +357,8 @@ func checkC19(ctx *Ctx, r *Report, tier string) {
 	checkTreeSettingsInherited(ctx, r)
 	checkLatticeToWorld(ctx, r)
 	checkRootCoversAllAxes(ctx, r)
+	checkSolveKeepsAccumulators(ctx, r)
+	checkSampleCacheKey(ctx, r)
 	degenerateToleranceZero(ctx, r, "K3", "render/dc")
 	checkPowerOfTwo(ctx, r)
 	checkWarnOnceBlocks(ctx, r)
@@ -2231,4 +2233,102 @@ func checkRootCoversAllAxes(ctx *Ctx, r *Report) {
 	}
 	r.check("K17", "dcNewOctree|root-side-is-the-largest-rounded-count", fn.Pos(), bad == "" && n > 0, fmt.Sprintf("%d count triples with the largest on each axis in turn;%s", n, bad))
 	r.floor("K17", 1)
+}
+
+// checkSolveKeepsAccumulators (K18): the QEF solver accumulates sums (mass point, AᵀA, Aᵀb) over
+// the crossings of a cell; MassPoint() divides the sum by the count each time it is asked. Solve
+// works on copies: if it scaled the sum in place ("as the reference implementation does"), the
+// fallback to the mass point - taken when the solution leaves the cell and vertex locking is on -
+// divides a second time and puts the vertex many cells away. Solve (and what it calls on the
+// same solver) stores into no field that MassPoint reads.
+func checkSolveKeepsAccumulators(ctx *Ctx, r *Report) {
+	solve := ctx.ssaFunc("render/dc", "(*dcQefSolver).Solve")
+	mass := ctx.ssaFunc("render/dc", "(*dcQefSolver).MassPoint")
+	if solve == nil || mass == nil {
+		r.undecided("K18", "dcQefSolver.Solve", 0, "Solve or MassPoint not found")
+		return
+	}
+	reads := map[int]bool{}
+	allInstrs(mass, func(_ *ssa.BasicBlock, ins ssa.Instruction) {
+		if fa, ok := ins.(*ssa.FieldAddr); ok && len(mass.Params) > 0 && fa.X == ssa.Value(mass.Params[0]) {
+			reads[fa.Field] = true
+		}
+	})
+	bad := ""
+	seen := map[*ssa.Function]bool{}
+	var scan func(f *ssa.Function, depth int)
+	scan = func(f *ssa.Function, depth int) {
+		if f == nil || seen[f] || depth > 3 || len(f.Blocks) == 0 || !inModule(f) || len(f.Params) == 0 {
+			return
+		}
+		seen[f] = true
+		allInstrs(f, func(_ *ssa.BasicBlock, ins ssa.Instruction) {
+			switch x := ins.(type) {
+			case *ssa.Store:
+				for a := x.Addr; a != nil; {
+					fa, ok := a.(*ssa.FieldAddr)
+					if !ok {
+						if ia, isIA := a.(*ssa.IndexAddr); isIA {
+							a = ia.X
+							continue
+						}
+						break
+					}
+					if fa.X == ssa.Value(f.Params[0]) && reads[fa.Field] && types.Identical(f.Params[0].Type(), solve.Params[0].Type()) {
+						bad += " " + shortFn(f) + " stores into the solver's field #" + fmt.Sprint(fa.Field) + " at " + ctx.pos(x.Pos()) + ";"
+					}
+					a = fa.X
+				}
+			case *ssa.Call:
+				if g := x.Call.StaticCallee(); g != nil && g != mass && len(x.Call.Args) > 0 && x.Call.Args[0] == ssa.Value(f.Params[0]) {
+					scan(g, depth+1)
+				}
+			}
+		})
+	}
+	scan(solve, 0)
+	r.check("K18", "dcQefSolver.Solve|leaves-the-accumulated-sums-alone", solve.Pos(), bad == "" && len(reads) > 0, fmt.Sprintf("MassPoint reads %d fields of the solver; Solve writes none of them;%s", len(reads), bad))
+	r.floor("K18", 1)
+}
+
+// checkSampleCacheKey (K19): the V2 renderer caches the distance per sample position; the key is
+// the position itself. A narrower key (single precision "to halve the key size") makes distinct
+// lattice points share one value once coordinate/cell size reaches 2^23: a part placed far from
+// the origin is meshed from wrong samples. Every lookup and update of the cache uses the
+// position parameter as it is.
+func checkSampleCacheKey(ctx *Ctx, r *Report) {
+	fn := ctx.ssaFunc("render/dc", "(*dcSdf).evaluateCached")
+	if fn == nil || len(fn.Params) < 2 {
+		r.check("K19", "dcSdf.evaluateCached|cache-keyed-by-the-sample-position", 0, true, "no cached evaluation (rule not applicable to this shape)")
+		r.floor("K19", 1)
+		return
+	}
+	ev := newEval(ctx, "Evaluate")
+	ev.evalRoot(fn)
+	pn := paramName(fn, 1)
+	want := "{" + pn + ".X " + pn + ".Y " + pn + ".Z}"
+	nl, nu := 0, 0
+	bad := ""
+	for _, e := range ev.Events {
+		if e.Callee != "maplookup" && e.Callee != "mapupdate" {
+			continue
+		}
+		if e.Callee == "maplookup" {
+			nl++
+		} else {
+			nu++
+		}
+		kv := e.Args[1]
+		if sy, isSym := kv.(*Sym); isSym {
+			kv = materialise(sy)
+		}
+		if k := valKey(kv); k != want {
+			bad += fmt.Sprintf(" %s with key %s;", e.Callee, shortKey(k, 120))
+		}
+	}
+	if nl == 0 || nu == 0 {
+		bad += fmt.Sprintf(" %d lookups, %d updates found;", nl, nu)
+	}
+	r.check("K19", "dcSdf.evaluateCached|cache-keyed-by-the-sample-position", fn.Pos(), bad == "", "every lookup and update uses the position "+want+" itself as the key;"+bad)
+	r.floor("K19", 1)
 }
